@@ -4,9 +4,9 @@
       on the bytes ([run_pure]) and leaves the same bytes behind (C19's run_rd_spec, twice).
    2. the binary-count loops are the unary loops; the GZI / BAI programs against C17's
       whole-buffer parsers (NV.Index.Layout.read_gzi / read_bai): [gzi_link], [bai_link].
-   3. sync vs async: GZI equal below the capacity-overflow count, refuted at 2^59;
-      BAI equal up to InvalidData (sync) / UnexpectedEof (async) on data shorter than 2^35 bytes
-      ([bai_sync_async_rel]), the exact equality refuted. *)
+   3. sync vs async (repaired /repo f641783, d76b74b): GZI equal for every count, BAI the same
+      index AND the same error kind, for every byte string; the former counter-examples are
+      kept as witnesses of equality. *)
 From Coq Require Import List PArith NArith Arith Bool Lia ZifyBool ZifyNat ZifyN.
 From NV Require Import Base.LE Io.Source Io.ReadExact Io.ReadExactProofs Io.Run Io.RunProofs.
 From NV Require Import Async.ReadExact Async.ReadExactProofs.
@@ -131,17 +131,13 @@ Proof.
   intros A n k d. unfold ix_le, Layout.p_le. cbn [run_pure]. destruct (n <=? length d); reflexivity.
 Qed.
 
-Lemma ix_rd_opt : forall (A : Type) sy n (k : N -> prog A) d,
+Lemma ix_rd_opt : forall (A : Type) (sy : bool) n (k : N -> prog A) d,
   run_pure (ix_rd sy n k) d
   = match Layout.p_le n d with
     | Some (v, r) => run_pure (k v) r
-    | None => PErr (if sy then InvalidData else UnexpectedEof)
+    | None => PErr UnexpectedEof
     end.
-Proof.
-  intros A sy n k d. destruct sy; [|apply ix_le_opt].
-  unfold ix_rd, ix_le_as, Layout.p_le. cbn [run_pure]. rewrite firstn_short_test.
-  destruct (n <=? length d); reflexivity.
-Qed.
+Proof. intros A sy n k d. unfold ix_rd. apply ix_le_opt. Qed.
 
 (* a loop that appends one parsed item per round = C17's p_repeat *)
 Lemma iter_nat_repeat : forall (A : Type) (body : list A -> prog (list A)) (P : Layout.parser A),
@@ -189,11 +185,10 @@ Proof. intros acc d. exact (pair_body_opt false acc d). Qed.
 Theorem gzi_link : forall d,
   match run_pure (p_gzi false) d with
   | POk (GIndex l) r => Layout.read_gzi d = Some l /\ r = []
-  | POk GPanic _ => False
   | PErr _ => Layout.read_gzi d = None
   end.
 Proof.
-  intros d. unfold p_gzi, Layout.read_gzi. cbn [andb]. rewrite ix_le_opt.
+  intros d. unfold p_gzi, Layout.read_gzi. rewrite ix_le_opt.
   destruct (Layout.p_le 8 d) as [[n r]|]; [|reflexivity].
   rewrite run_pure_bind. pose proof (iter_repeat Layout.chunkp gzi_pair_body Layout.p_chunk gzi_pair_body_opt n r) as H.
   destruct (run_pure (ix_iter gzi_pair_body n []) r) as [l r'|e]; cbn [to_opt] in H; rewrite <- H; [|reflexivity].
@@ -203,7 +198,7 @@ Qed.
 Lemma bai_chunks_opt : forall d, to_opt (run_pure (bai_chunks true) d) = Layout.p_chunks d.
 Proof.
   intros d. unfold bai_chunks, Layout.p_chunks. rewrite ix_rd_opt.
-  destruct (Layout.p_le 4 d) as [[n r]|]; [|reflexivity]. cbn [andb].
+  destruct (Layout.p_le 4 d) as [[n r]|]; [|reflexivity].
   destruct (n <? 2147483648)%N; cbn [negb]; [|reflexivity].
   apply (iter_repeat _ (bai_chunk_body true) Layout.p_chunk (pair_body_opt true)).
 Qed.
@@ -333,40 +328,26 @@ Proof.
   destruct (8 <=? length r2); reflexivity.
 Qed.
 
-(* ---- 3a. GZI: async vs sync ------------------------------------------------------------------ *)
+(* ---- 3a. GZI: async = sync, for every count ---------------------------------------------------- *)
 
-(* the count field of the file makes Vec::with_capacity overflow *)
-Definition gzi_count_overflows (d : list N) : Prop :=
-  8 <= length d /\ (gzi_cap_limit <= le_dec (firstn 8 d))%N.
-
-Lemma gzi_async_pure : forall d, ~ gzi_count_overflows d -> run_pure (p_gzi true) d = run_pure (p_gzi false) d.
-Proof.
-  intros d H. unfold p_gzi, ix_le. cbn [run_pure andb].
-  destruct (Nat.leb_spec 8 (length d)) as [H8|H8]; [|reflexivity].
-  destruct (N.leb_spec gzi_cap_limit (le_dec (firstn 8 d))) as [Hc|Hc]; [|reflexivity].
-  exfalso. apply H. split; assumption.
-Qed.
+(* one program for both readers (since /repo f641783) *)
+Lemma gzi_sides_equal : p_gzi true = p_gzi false.
+Proof. reflexivity. Qed.
 
 Theorem async_gzi_reader_equals_sync : forall polls req req' script d,
-  ~ gzi_count_overflows d ->
   fst (run_rd aread req a_fuel (p_gzi true) (mkASource d polls))
   = fst (run_rd src_read req' src_fuel (p_gzi false) (mkSource d script)).
 Proof.
-  intros polls req req' script d H. apply async_progs_equal_sync. apply gzi_async_pure. exact H.
+  intros polls req req' script d. apply async_progs_equal_sync. reflexivity.
 Qed.
 
-Definition async_gzi_reader_equals_sync_full_statement : Prop :=
-  forall polls req req' script d,
-    fst (run_rd aread req a_fuel (p_gzi true) (mkASource d polls))
-    = fst (run_rd src_read req' src_fuel (p_gzi false) (mkSource d script)).
-
-(* a count of 2^59 and nothing else: the sync reader reports UnexpectedEof, the async one panics *)
-Theorem async_gzi_reader_equals_sync_refuted :
-  exists d, forall polls req req' script,
-    fst (run_rd aread req a_fuel (p_gzi true) (mkASource d polls)) = RVal GPanic
-    /\ fst (run_rd src_read req' src_fuel (p_gzi false) (mkSource d script)) = RErr UnexpectedEof.
+(* the former counter-example (a count of 2^59 and nothing else: the async reader used to panic in
+   Vec::with_capacity): UnexpectedEof on both sides now *)
+Theorem async_gzi_reader_huge_count_now_equal : forall polls req req' script,
+  fst (run_rd aread req a_fuel (p_gzi true) (mkASource [0; 0; 0; 0; 0; 0; 0; 8]%N polls)) = RErr UnexpectedEof
+  /\ fst (run_rd src_read req' src_fuel (p_gzi false) (mkSource [0; 0; 0; 0; 0; 0; 0; 8]%N script)) = RErr UnexpectedEof.
 Proof.
-  exists [0; 0; 0; 0; 0; 0; 0; 8]%N. intros polls req req' script.
+  intros polls req req' script.
   destruct (async_prog_equals_sync _ (p_gzi true) polls req req' script [0; 0; 0; 0; 0; 0; 0; 8]%N)
     as [a' [_ [Ea _]]].
   destruct (async_prog_equals_sync _ (p_gzi false) polls req req' script [0; 0; 0; 0; 0; 0; 0; 8]%N)
@@ -374,197 +355,33 @@ Proof.
   rewrite Ea, Es. split; vm_compute; reflexivity.
 Qed.
 
-(* ---- 3b. BAI: sync vs async up to the error kind ---------------------------------------------- *)
+(* ---- 3b. BAI: async = sync, same index AND same error kind ------------------------------------- *)
 
-(* equal, or the sync side says InvalidData where the async side says UnexpectedEof *)
-Definition kind_rel {A : Type} (s a : pres A) : Prop :=
-  s = a \/ (s = PErr InvalidData /\ a = PErr UnexpectedEof).
-
-Definition prel {A : Type} (B : N) (p q : prog A) : Prop :=
-  forall d, (N.of_nat (length d) < B)%N -> kind_rel (run_pure p d) (run_pure q d).
-
-Lemma run_pure_len : forall (A : Type) (p : prog A) d a r, run_pure p d = POk a r -> length r <= length d.
-Proof.
-  intros A p. induction p as [x|e|n k IH|n k IH]; intros d a r E; cbn [run_pure] in E.
-  - inversion E; subst. lia.
-  - discriminate E.
-  - destruct (n <=? length d); [|discriminate E]. apply IH in E. rewrite skipn_length in E. lia.
-  - apply IH in E. rewrite skipn_length in E. lia.
-Qed.
-
-Lemma prel_refl : forall (A : Type) B (p : prog A), prel B p p.
-Proof. intros A B p d _. left. reflexivity. Qed.
-
-Lemma prel_bind : forall (A C : Type) B (p q : prog A) (f g : A -> prog C),
-  prel B p q -> (forall a, prel B (f a) (g a)) -> prel B (p_bind p f) (p_bind q g).
-Proof.
-  intros A C B p q f g Hp Hf d Hd. rewrite !run_pure_bind.
-  destruct (Hp d Hd) as [E|[E1 E2]].
-  - rewrite E. destruct (run_pure q d) as [a r|e] eqn:Eq; [|left; reflexivity].
-    apply Hf. apply run_pure_len in Eq. lia.
-  - rewrite E1, E2. right. split; reflexivity.
-Qed.
-
-Lemma prel_read : forall (A : Type) B n (k k' : list N -> prog A),
-  (forall bs, prel B (k bs) (k' bs)) -> prel B (PRead n k) (PRead n k').
-Proof.
-  intros A B n k k' H d Hd. cbn [run_pure]. destruct (n <=? length d); [|left; reflexivity].
-  apply H. rewrite skipn_length. lia.
-Qed.
-
-Lemma prel_take : forall (A : Type) B n (k k' : list N -> prog A),
-  (forall bs, prel B (k bs) (k' bs)) -> prel B (PTake n k) (PTake n k').
-Proof.
-  intros A B n k k' H d Hd. cbn [run_pure]. apply H. rewrite skipn_length. lia.
-Qed.
-
-Lemma prel_ix_le : forall (A : Type) B n (k k' : N -> prog A),
-  (forall v, prel B (k v) (k' v)) -> prel B (ix_le n k) (ix_le n k').
-Proof. intros A B n k k' H. unfold ix_le. apply prel_read. intros bs. apply H. Qed.
-
-Lemma prel_ix_rd : forall (A : Type) B n (k k' : N -> prog A),
-  (forall v, prel B (k v) (k' v)) -> prel B (ix_rd true n k) (ix_rd false n k').
-Proof.
-  intros A B n k k' H d Hd. unfold ix_rd, ix_le_as, ix_le. cbn [run_pure]. rewrite firstn_short_test.
-  destruct (n <=? length d); cbn [negb].
-  - apply H. rewrite skipn_length. lia.
-  - right. split; reflexivity.
-Qed.
-
-Lemma prel_iter_pos : forall (St : Type) B (b1 b2 : St -> prog St),
-  (forall s, prel B (b1 s) (b2 s)) -> forall p s, prel B (ix_iter_pos b1 p s) (ix_iter_pos b2 p s).
-Proof.
-  intros St B b1 b2 H p. induction p as [q IH|q IH|]; intros s; cbn [ix_iter_pos].
-  - apply prel_bind; [apply H|]. intros s0. apply prel_bind; [apply IH|apply IH].
-  - apply prel_bind; [apply IH|apply IH].
-  - apply H.
-Qed.
-
-Lemma prel_iter : forall (St : Type) B (b1 b2 : St -> prog St),
-  (forall s, prel B (b1 s) (b2 s)) -> forall n s, prel B (ix_iter b1 n s) (ix_iter b2 n s).
-Proof.
-  intros St B b1 b2 H n s. destruct n as [|p]; [apply prel_refl|]. cbn [ix_iter]. apply prel_iter_pos. exact H.
-Qed.
-
-Lemma prel_chunk_body : forall B acc, prel B (bai_chunk_body true acc) (bai_chunk_body false acc).
-Proof.
-  intros B acc. unfold bai_chunk_body. apply prel_ix_rd. intros a. apply prel_ix_rd. intros b. apply prel_refl.
-Qed.
-
-(* the async reader's loop over a chunk count it cannot satisfy runs out of data *)
-Lemma async_chunks_short : forall k acc d, length d < 16 * k ->
-  run_pure (ix_iter_nat (bai_chunk_body false) k acc) d = PErr UnexpectedEof.
-Proof.
-  induction k as [|k IH]; intros acc d H; [lia|].
-  cbn [ix_iter_nat]. rewrite run_pure_bind. unfold bai_chunk_body at 1, ix_rd, ix_le. cbn [run_pure].
-  destruct (Nat.leb_spec 8 (length d)) as [H1|H1]; [|reflexivity].
-  destruct (Nat.leb_spec 8 (length (skipn 8 d))) as [H2|H2]; [|reflexivity].
-  apply IH. rewrite !skipn_length in *. lia.
-Qed.
-
-Definition bai_bound : N := 34359738368.  (* 2^35 bytes = 2^31 chunks *)
-
-Lemma prel_chunks : prel bai_bound (bai_chunks true) (bai_chunks false).
-Proof.
-  unfold bai_chunks. apply prel_ix_rd. intros n. cbn [andb].
-  destruct (N.ltb_spec n 2147483648) as [Hn|Hn]; cbn [negb].
-  - apply prel_iter. intros s. apply prel_chunk_body.
-  - intros d Hd. right. split; [reflexivity|].
-    rewrite ix_iter_nat_eq. apply async_chunks_short. unfold bai_bound in Hd. lia.
-Qed.
-
-Lemma prel_metadata : forall B, prel B (bai_metadata true) (bai_metadata false).
-Proof.
-  intros B. unfold bai_metadata. apply prel_ix_rd. intros n.
-  destruct (negb (n =? 2)%N); [apply prel_refl|].
-  apply prel_ix_rd. intros a. apply prel_ix_rd. intros b. apply prel_ix_rd. intros c.
-  apply prel_ix_rd. intros e. apply prel_refl.
-Qed.
-
-Lemma prel_bin_body : forall st, prel bai_bound (bai_bin_body true st) (bai_bin_body false st).
-Proof.
-  intros st. unfold bai_bin_body. apply prel_ix_le. intros id.
-  destruct (id =? Layout.bai_metadata_id)%N.
-  - apply prel_bind; [apply prel_metadata|]. intros m. apply prel_refl.
-  - apply prel_bind; [apply prel_chunks|]. intros cs. apply prel_refl.
-Qed.
-
-Lemma prel_bins : prel bai_bound (bai_bins true) (bai_bins false).
-Proof.
-  unfold bai_bins. apply prel_ix_le. intros n. apply prel_bind.
-  - apply prel_iter. apply prel_bin_body.
-  - intros st. apply prel_refl.
-Qed.
-
-Lemma prel_ref_body : forall acc, prel bai_bound (bai_ref_body true acc) (bai_ref_body false acc).
-Proof.
-  intros acc. unfold bai_ref_body, bai_ref. apply prel_bind; [|intros r; apply prel_refl].
-  apply prel_bind; [apply prel_bins|]. intros bm. apply prel_refl.
-Qed.
-
-(* on every file shorter than 2^35 bytes the two BAI readers return the same index and the same
-   error, except that the sync reader says InvalidData where the async reader says UnexpectedEof *)
-Theorem bai_sync_async_rel : prel bai_bound (p_bai true) (p_bai false).
-Proof.
-  unfold p_bai. apply prel_read. intros m.
-  destruct (negb (bytes_eqb m Layout.bai_magic)); [apply prel_refl|].
-  apply prel_ix_le. intros n. apply prel_bind.
-  - apply prel_iter. apply prel_ref_body.
-  - intros refs. apply prel_refl.
-Qed.
-
-Definition rr_rel {A : Type} (s a : rr A) : Prop :=
-  s = a \/ (s = RErr InvalidData /\ a = RErr UnexpectedEof).
-
-Theorem async_bai_reader_equals_sync_partial : forall polls req req' script d,
-  (N.of_nat (length d) < bai_bound)%N ->
-  rr_rel (fst (run_rd src_read req' src_fuel (p_bai true) (mkSource d script)))
-         (fst (run_rd aread req a_fuel (p_bai false) (mkASource d polls))).
-Proof.
-  intros polls req req' script d Hd.
-  destruct (async_prog_equals_sync _ (p_bai false) polls req req' script d) as [a' [_ [Ea _]]].
-  destruct (async_prog_equals_sync _ (p_bai true) polls req req' script d) as [_ [t' [_ [Es _]]]].
-  rewrite Ea, Es. cbn [fst].
-  destruct (bai_sync_async_rel d Hd) as [E|[E1 E2]].
-  - rewrite E. left. reflexivity.
-  - rewrite E1, E2. right. split; reflexivity.
-Qed.
-
-(* the class on which the error kinds differ, seen from the async side: the async reader runs out
-   of data (inside a chunk list or the metadata pseudo-bin of a bin, or under a chunk count of
-   2^31 or more) where the sync reader reports InvalidData *)
-Definition bai_kind_class (d : list N) : Prop :=
-  run_pure (p_bai false) d = PErr UnexpectedEof /\ run_pure (p_bai true) d = PErr InvalidData.
+(* the two flavours are one program (since /repo d76b74b) *)
+Lemma bai_sides_equal : p_bai true = p_bai false.
+Proof. reflexivity. Qed.
 
 Theorem async_bai_reader_equals_sync : forall polls req req' script d,
-  (N.of_nat (length d) < bai_bound)%N -> ~ bai_kind_class d ->
   fst (run_rd aread req a_fuel (p_bai false) (mkASource d polls))
   = fst (run_rd src_read req' src_fuel (p_bai true) (mkSource d script)).
 Proof.
-  intros polls req req' script d Hd Hc. apply async_progs_equal_sync.
-  destruct (bai_sync_async_rel d Hd) as [E|[E1 E2]]; [symmetry; exact E|].
-  exfalso. apply Hc. split; assumption.
+  intros polls req req' script d. apply async_progs_equal_sync. reflexivity.
 Qed.
 
 (* whenever either reader returns an index, so does the other: the same one *)
 Theorem async_bai_index_equals_sync : forall polls req req' script d i,
-  (N.of_nat (length d) < bai_bound)%N ->
   (fst (run_rd aread req a_fuel (p_bai false) (mkASource d polls)) = RVal i
    <-> fst (run_rd src_read req' src_fuel (p_bai true) (mkSource d script)) = RVal i).
 Proof.
-  intros polls req req' script d i Hd.
-  destruct (async_bai_reader_equals_sync_partial polls req req' script d Hd) as [E|[E1 E2]].
-  - rewrite E. tauto.
-  - rewrite E1, E2. split; intros X; discriminate X.
+  intros polls req req' script d i. rewrite (async_bai_reader_equals_sync polls req req' script d). tauto.
 Qed.
 
 (* ... and it is the index C17's whole-buffer parser returns *)
 Theorem async_bai_reader_link : forall polls req d i,
-  (N.of_nat (length d) < bai_bound)%N ->
   (fst (run_rd aread req a_fuel (p_bai false) (mkASource d polls)) = RVal i <-> Layout.read_bai d = Some i).
 Proof.
-  intros polls req d i Hd.
-  rewrite (async_bai_index_equals_sync polls req req [] d i Hd).
+  intros polls req d i.
+  rewrite (async_bai_index_equals_sync polls req req [] d i).
   destruct (async_prog_equals_sync _ (p_bai true) polls req req [] d) as [_ [t' [_ [Es _]]]].
   rewrite Es, bai_link. cbn [fst]. destruct (run_pure (p_bai true) d) as [j r|e]; cbn [rr_of].
   - split; intros X; inversion X; reflexivity.
@@ -572,33 +389,32 @@ Proof.
 Qed.
 
 Theorem async_gzi_reader_link : forall polls req d l,
-  ~ gzi_count_overflows d ->
   (fst (run_rd aread req a_fuel (p_gzi true) (mkASource d polls)) = RVal (GIndex l) <-> Layout.read_gzi d = Some l).
 Proof.
-  intros polls req d l Hc.
+  intros polls req d l.
   destruct (async_prog_equals_sync _ (p_gzi true) polls req req [] d) as [a' [_ [Ea _]]].
-  rewrite Ea, (gzi_async_pure d Hc). cbn [fst]. pose proof (gzi_link d) as H.
-  destruct (run_pure (p_gzi false) d) as [[j|] r|e]; cbn [rr_of].
+  rewrite Ea, gzi_sides_equal. cbn [fst]. pose proof (gzi_link d) as H.
+  destruct (run_pure (p_gzi false) d) as [[j] r|e]; cbn [rr_of].
   - destruct H as [H _]. rewrite H. split; intros X; inversion X; reflexivity.
-  - contradiction.
   - rewrite H. split; intros X; discriminate X.
 Qed.
 
-Definition async_bai_reader_equals_sync_full_statement : Prop :=
-  forall polls req req' script d,
-    fst (run_rd aread req a_fuel (p_bai false) (mkASource d polls))
-    = fst (run_rd src_read req' src_fuel (p_bai true) (mkSource d script)).
-
-(* magic, one reference, one bin whose chunk count is cut after two bytes *)
+(* the former counter-examples: a file cut inside a bin's n_chunk (sync used to say InvalidData)
+   and a negative n_chunk (async used to say UnexpectedEof) *)
 Definition bai_cut_in_bin : list N := [66; 65; 73; 1; 1; 0; 0; 0; 1; 0; 0; 0; 5; 0; 0; 0; 1; 0]%N.
+Definition bai_negative_n_chunk : list N :=
+  [66; 65; 73; 1; 1; 0; 0; 0; 1; 0; 0; 0; 5; 0; 0; 0; 0; 0; 0; 128]%N.
 
-Theorem async_bai_reader_equals_sync_refuted :
-  exists d, forall polls req req' script,
-    fst (run_rd aread req a_fuel (p_bai false) (mkASource d polls)) = RErr UnexpectedEof
-    /\ fst (run_rd src_read req' src_fuel (p_bai true) (mkSource d script)) = RErr InvalidData.
+Theorem async_bai_reader_former_differences_now_equal : forall polls req req' script,
+  fst (run_rd aread req a_fuel (p_bai false) (mkASource bai_cut_in_bin polls)) = RErr UnexpectedEof
+  /\ fst (run_rd src_read req' src_fuel (p_bai true) (mkSource bai_cut_in_bin script)) = RErr UnexpectedEof
+  /\ fst (run_rd aread req a_fuel (p_bai false) (mkASource bai_negative_n_chunk polls)) = RErr InvalidData
+  /\ fst (run_rd src_read req' src_fuel (p_bai true) (mkSource bai_negative_n_chunk script)) = RErr InvalidData.
 Proof.
-  exists bai_cut_in_bin. intros polls req req' script.
-  destruct (async_prog_equals_sync _ (p_bai false) polls req req' script bai_cut_in_bin) as [a' [_ [Ea _]]].
-  destruct (async_prog_equals_sync _ (p_bai true) polls req req' script bai_cut_in_bin) as [_ [t' [_ [Es _]]]].
-  rewrite Ea, Es. split; vm_compute; reflexivity.
+  intros polls req req' script.
+  destruct (async_prog_equals_sync _ (p_bai false) polls req req' script bai_cut_in_bin) as [a1 [_ [Ea1 _]]].
+  destruct (async_prog_equals_sync _ (p_bai true) polls req req' script bai_cut_in_bin) as [_ [t1 [_ [Es1 _]]]].
+  destruct (async_prog_equals_sync _ (p_bai false) polls req req' script bai_negative_n_chunk) as [a2 [_ [Ea2 _]]].
+  destruct (async_prog_equals_sync _ (p_bai true) polls req req' script bai_negative_n_chunk) as [_ [t2 [_ [Es2 _]]]].
+  rewrite Ea1, Es1, Ea2, Es2. repeat split; vm_compute; reflexivity.
 Qed.
